@@ -26,6 +26,7 @@ func init() {
 const expP = "internal/core/export"
 
 func checkC07(c *Ctx) {
+	c07HoistedNames(c)
 	c07MergeAndFinalize(c)
 	c.checkCounterBalance("counters.inc-dec-balanced", "internal/core/export", map[string]string{
 		// reviewed: a structural leak, but no failing input was found
@@ -391,4 +392,77 @@ func c07MergeAndFinalize(c *Ctx) {
 	}
 	c.check("finalize.pivot-completed-before-sanitize", fin.Name, fin.Decl.Pos(), okF,
 		"finalize must add the hoisted `let` declarations (completePivot) before astutil.Sanitize runs on the file: Sanitize inserts the import declarations and resolves identifiers only for what the file contains at that moment")
+}
+
+// c07HoistedNames: out-of-scope references are hoisted into `let NAME = ...`
+// where NAME is derived from the label of the referenced field. Any string
+// can be a label ("foo-bar"), and exporter.ident panics on a name that is not
+// a valid identifier, so the derived name must be checked or sanitised
+// (ast.IsValidIdent consulted) on every path before it becomes the base of the
+// unique feature.
+func c07HoistedNames(c *Ctx) {
+	f := c.fn("internal/core/export", "(*pivotter).makeParentPath")
+	g := c.graph(f)
+	info := f.Info()
+	uniq := g.callNodes("internal/core/export.(*exporter).uniqueFeature")
+	var nameVar types.Object
+	for _, call := range uniq {
+		if len(call.Args) == 1 {
+			nameVar = identObj(info, call.Args[0])
+		}
+	}
+	// where the name is taken from the label text
+	fromLabel := g.find(func(n ast.Node) bool {
+		as, ok := n.(*ast.AssignStmt)
+		if !ok || len(as.Lhs) != 1 || len(as.Rhs) != 1 || nameVar == nil || identObj(info, as.Lhs[0]) != nameVar {
+			return false
+		}
+		call, ok := ast.Unparen(as.Rhs[0]).(*ast.CallExpr)
+		return ok && strings.HasSuffix(calleeName(info, call), ".IdentString")
+	})
+	consults := func(n ast.Node) bool {
+		found := false
+		for _, call := range callsIn(n, false) {
+			callee := calleeName(info, call)
+			if callee == "cue/ast.IsValidIdent" {
+				found = true
+			}
+			// one level of helper
+			if strings.HasPrefix(callee, "internal/core/export.") {
+				if h := c.fnOpt("internal/core/export", strings.TrimPrefix(callee, "internal/core/export.")); h != nil {
+					ast.Inspect(h.Body, func(x ast.Node) bool {
+						if hc, ok := x.(*ast.CallExpr); ok && calleeName(h.Info(), hc) == "cue/ast.IsValidIdent" {
+							found = true
+						}
+						return true
+					})
+				}
+			}
+		}
+		return found
+	}
+	checks := map[int]bool{}
+	for _, n := range g.Nodes {
+		if n.N != nil && consults(n.N) {
+			checks[n.ID] = true
+		}
+		for _, e := range n.Succs {
+			if e.Cond != nil && consults(e.Cond) {
+				checks[n.ID] = true
+			}
+		}
+	}
+	ok := len(uniq) == 1 && nameVar != nil && len(fromLabel) > 0
+	if ok {
+		for _, a := range fromLabel {
+			r := g.reach([]int{a}, func(id int) bool { return checks[id] }, nil)
+			for u := range uniq {
+				if r[u] {
+					ok = false
+				}
+			}
+		}
+	}
+	c.check("hoist.let-name-is-an-identifier", f.Name, f.Decl.Pos(), ok,
+		"the name of a hoisted let is derived from a field label, which may be any string: between taking the label text (IdentString) and p.x.uniqueFeature(name) the name must be validated or sanitised with ast.IsValidIdent, or exporter.ident panics (`X=\"foo-bar\": {...}` referenced from the exported sub-value)")
 }
